@@ -24,6 +24,39 @@ INFO = {
  "C18": dict(breaks="C18", change="UnboundedPoissonSolverPYFFTW2D.solve clears only the padding with slices [ny:, :] and [:nx, nx:] (x/y extents mixed up)", needs="2-D grid taller than wide and a solver object that has solved before (uninterrupted run) vs a fresh one (resumed run)"),
  "C19": dict(breaks="C19", change="3-D boundary damping computes the far-face coordinates from grid size * dx with the x and z extents swapped", needs="3-D grid with nx != nz and width >= 1"),
  "C20": dict(breaks="C20", change="(see notes.md)", needs="(see notes.md)"),
+ # ---- round 2 (agents were told the round-1 change and asked for one of a different nature and place) ----
+ "C01b": dict(breaks="C01", first="missed", change="UnboundedPoissonSolverPYFFTW3D caches the Fourier Green's function at class level, keyed by (grid sizes, dtype) - x_range is missing from the key",
+              needs="a second 3-D simulator / solver in the same process with the same grid and precision but another x_range", strengthening="later-object instances (`_earlier`): a simulator with another x_range is built and stepped first in the same process"),
+ "C03b": dict(breaks="C03", first="missed", change="UnboundedPoissonSolverPYFFTW2D caches the Fourier Green's function in a module-level dict keyed by (grid sizes, dtype) - x_range missing",
+              needs="two 2-D solver objects in one process, same shape and precision, different x_range, rhs with non-zero sum", strengthening="later-object instances in C03 (other x_range / transposed shape / other precision first)"),
+ "C04b": dict(breaks="C04", first="caught", change="3-D ENO3 step: first face kernel assigns instead of accumulating and the full-buffer clear is replaced by a width-1 boundary clear; the second ring of the flux buffer keeps stale data",
+              needs="non-zero data in the second ring of the scratch buffer when the step starts (e.g. compute_stable_timestep() before time_step())", strengthening="none needed (all scratch buffers are symbolic)"),
+ "C05b": dict(breaks="C05", first="missed by C05 (caught by C01, C04, C19)", change="convolution filter: repeated 1-D filter applications run in place on the flux buffer (input aliased with output)",
+              needs="filter_type='convolution' with filter_order >= 2", strengthening="C05 now also runs the composed filter callables (both types, orders 1-3, scalar/vector) on quadratics; generic second counterexample because the sparse first model sat where compiler vectorisation hides the aliasing"),
+ "C06b": dict(breaks="C06", first="missed", change="EulerianLagrangianGridCommunicator3D.__init__ reuses compiled weight kernels from a module-level dict keyed by (dx, width, real_t) - interp_kernel_type missing",
+              needs="a Peskin communicator built after a cosine one with the same dx/width/precision in one process (through the class, not the bare generators)", strengthening="C06 obtains its kernels from the communicator class; later-object instances (other delta function first); numeric witness search for models of queries with abstracted cos/sqrt"),
+ "C07b": dict(breaks="C07", first="missed", change="2-D interpolation/spreading kernels memoised in a module-level registry keyed by (tag, num_lag_nodes, width, n_components) - dx (cell volume factor) missing for interpolation",
+              needs="a second 2-D communicator with the same marker and component count but another dx in one process", strengthening="later-object instances in C07 (other dx / component count / marker count first; through generators and class)"),
+ "C08b": dict(breaks="C08", first="inconclusive (harness refused an unknown array)", change="ThreeDimensionalRigidBodyForcingGrid caches a view of director_collection[:, :, 0] at construction and rotates the lab-frame moment with it",
+              needs="the body's director_collection attribute re-bound after the grid was built (PyElastica finalize()) and the body rotated", strengthening="unknown arrays are kept at their constructed content instead of aborting; the replay re-binds the body state arrays exactly as the symbolic run does"),
+ "C09b": dict(breaks="C09", first="caught", change="TwoDimensionalCylinderForcingGrid drops the director factor Q[2,2] from the lab-frame angular velocity", needs="2-D cylinder with axis along -Z and non-zero omega", strengthening="none needed"),
+ "C10b": dict(breaks="C10", first="missed (quick; thorough histories of length 4 reach it)", change="compute_flow_forces_and_torques skips the Lagrangian re-evaluation when an evaluation was stamped at the same forcing time",
+              needs="evaluate, change flow/body without time_step, then compute_flow_forces_and_torques", strengthening="quick tier now enumerates all histories of length 3 (thorough: 5)"),
+ "C11b": dict(breaks="C11", first="missed", change="FastDiagPoissonSolver3D back-transform written with np.matmul(out=solution_field.reshape(nz,-1)): for a non-contiguous output the reshape is a copy and the caller's array keeps stale data",
+              needs="output array that cannot be flattened without a copy (interior of a padded array, Fortran order, strided view)", strengthening="layout variants of the caller's arrays in C11 and C03"),
+ "C12b": dict(breaks="C12", first="missed", change="2-D forcing-update wrapper caches the component slices of the forcing keyed on id(velocity_forcing_field)",
+              needs="two consecutive calls of one kernel object with temporary wrappers of different buffers (CPython reuses the id of the dead wrapper)", strengthening="call-history scenario with forced identity reuse (view_with_identity_of)"),
+ "C14b": dict(breaks="C14", first="missed by C14 quick (caught by C05 after its strengthening and by C19; C14 thorough has the convolution filter)", change="convolution filter: the copy that reloads the work buffer before the z pass is deleted",
+              needs="filter_vorticity=True with filter type 'convolution' and an axis permutation", strengthening="convolution-filter instance in C14 quick; this also exposed that the quick 3-D Navier-Stokes instance of C14 was vacuous (8-cell axis with margin 4): grids enlarged and a vacuity guard added"),
+ "C15b": dict(breaks="C15", first="inconclusive (syntactic predicate refuted, no replay)", change="3-D scalar spreading compiled with parallel=True and prange (through an alias) when num_lag_nodes >= 512",
+              needs=">= 512 markers, scalar field, more than one numba thread, overlapping supports", strengthening="replay of (c) is a race demonstration on the compiled kernels (1 thread vs all threads, 3..4096 overlapping markers); the predicate now requires every loop to iterate over the builtin range"),
+ "C16b": dict(breaks="C16", first="inconclusive (refuted across two exploration paths sharing one simulator, not reproducible)", change="3-D Navier-Stokes compute_stable_timestep caches the un-prefactored dt per simulator time",
+              needs="second query after the velocity (or cfl / viscosity) changed without a time step", strengthening="query history in the wiring scenario (velocity, then viscosity/CFL changed between queries); every exploration path starts from a freshly built simulator"),
+ "C17b": dict(breaks="C17", first="caught", change="IO.load guards the Lagrangian branch with `if self.lagrangian_fields` instead of `if self.lagrangian_grids`", needs="Lagrangian grids registered without any Lagrangian field", strengthening="none needed"),
+ "C18b": dict(breaks="C18", first="caught", change="restart_simulation picks the latest checkpoint by file-name order instead of numeric index", needs="checkpoint indices with different digit counts (>= 10000)", strengthening="none needed (CrossHair finds the digit-count counterexample)"),
+ "C19b": dict(breaks="C19", first="caught", change="Laplacian filter zeroes the flux buffer's boundary ring once at generator time instead of at every call", needs="flux buffer ring dirtied after generation", strengthening="none needed (buffers dirty at call time since round 1)"),
+ "C20b": dict(breaks="C20", first="inconclusive (math.ceil of a symbolic real aborted the harness)", change="2-D Euler-forward diffusion step silently sub-cycles when nu*dt/dx^2 > 0.25", needs="nu_dt_by_dx2 > 0.25",
+              strengthening="math.floor/ceil/trunc of symbolic reals fork per integer value (small values first); exploration is bounded instead of aborting"),
 }
 for sid, info in INFO.items():
     d = os.path.join(V, "seeded", sid)
@@ -32,6 +65,10 @@ for sid, info in INFO.items():
         continue
     m = json.load(open(p))
     m.update({"property_broken": info["breaks"], "change": info["change"], "needs_to_manifest": info["needs"], "author": "independent sub-agent given only the property text and a scratch worktree"})
+    if "first" in info:
+        m["round"] = 2
+        m["first_run_of_target_check"] = info["first"]
+        m["strengthening"] = info["strengthening"]
     cr = m.get("checks_run", {})
     m["caught_by"] = sorted(k for k, v in cr.items() if v == 1)
     m["not_caught_by"] = sorted(k for k, v in cr.items() if v == 0)
